@@ -35,7 +35,8 @@ TInit == /\ l = 1 /\ dead = FALSE /\ bad = {} /\ drift = {}
 
 TNew == /\ Ev.ev = "new"
         /\ cap' = Ev.cap /\ ws' = <<>> /\ rs' = <<>> /\ cgiven' = {} /\ bgiven' = {}
-        /\ released' = FALSE /\ rblocked' = FALSE /\ viol' = "ok"
+        /\ released' = Ev.fr       \* a Pipe value that never had a buffer starts as released
+        /\ rblocked' = FALSE /\ viol' = "ok"
         /\ dead' = FALSE /\ UNCHANGED <<bad, drift>>
 
 Skip == /\ Ev.ev # "new" /\ dead /\ UNCHANGED <<pvars, dead, bad, drift>>
